@@ -65,6 +65,7 @@ func c15Exec(ndest int, alphabet []string) func(hist []int) (string, string, str
 			// reference model
 			var buf []byte
 			closed, sockClosed := false, false
+			refused := 0 // refused writes since the last flush: implementation state the model does not have
 			want := make([][][]byte, ndest)
 			for k, op := range hist {
 				name := alphabet[op]
@@ -96,6 +97,8 @@ func c15Exec(ndest int, alphabet []string) func(hist []int) (string, string, str
 					}
 					if !wantErr {
 						buf = append(buf, p...)
+					} else if !closed {
+						refused++
 					}
 				case name == "flush":
 					ferr := tr.Flush()
@@ -110,6 +113,7 @@ func c15Exec(ndest int, alphabet []string) func(hist []int) (string, string, str
 							}
 						}
 						buf = buf[:0] // the buffer is empty after any Flush, successful or not
+						refused = 0
 					}
 				case name == "close":
 					if cerr := tr.Close(); closed && cerr != nil {
@@ -137,7 +141,10 @@ func c15Exec(ndest int, alphabet []string) func(hist []int) (string, string, str
 					}
 				}
 			}
-			key = fmt.Sprint(ndest, len(buf), closed, sockClosed, len(want[0]))
+			if refused > 2 {
+				refused = 2
+			}
+			key = fmt.Sprint(ndest, len(buf), closed, sockClosed, len(want[0]), refused)
 			return "", ""
 		})
 		return
